@@ -7,6 +7,7 @@ terms.  Every axiom carries its provenance (Mathlib name or ASSUMED + citation) 
 """
 from __future__ import annotations
 
+import os
 import time
 import z3
 
@@ -727,7 +728,7 @@ def prove(hyps, goal, timeout_ms=8000, want_smt=False, groups=None, z3_ms=1500):
     t1 = time.time()
     dump = s.to_smt2()
     ans, who = cli_check(dump, timeout_ms)
-    if ans != "unsat" and ESCALATE[0]:
+    if ans != "unsat" and ESCALATE[0] and not os.environ.get("VERIF_NO_ESCALATE"):
         # a second, longer attempt so that a verdict does not flip when all cores are busy
         ans, who2 = cli_check(dump, timeout_ms * ESCALATE_FACTOR)
         who = who2 if ans == "unsat" else f"{who} | retry x{ESCALATE_FACTOR}: {who2}"
